@@ -480,6 +480,11 @@ impl<'p> Ctx<'p> {
                         // words are atoms: only the equation literal == named constant is brought in
                         let name = wname(l);
                         t.push_str(&format!("        vx_lit_{name}(); // {:?}\n", l));
+                        if l.chars().count() <= 4 && self.plan.known_lits.iter().any(|k| k == l) {
+                            // short literals (suffixes, particles): their characters too, so that harmless reorderings of
+                            // mutually exclusive suffix tests stay provable
+                            t.push_str(&format!("        vx_chars_{name}();\n"));
+                        }
                         if !self.plan.known_lits.iter().any(|k| k == l) {
                             let chars: Vec<String> = l.chars().map(|c| format!("{:?}", c)).collect();
                             let body = if chars.is_empty() { "Seq::<char>::empty()".to_string() } else { format!("seq![{}]", chars.join(", ")) };
